@@ -29,6 +29,21 @@ PROPS = {
             "note": "Trusted: refmodel::date, refmodel::civil. A panicking operation is counted inconclusive here and reported by C03.",
         },
     },
+    "C05": {
+        "builds": ["chk", "rel"],
+        "rule": ("add/subtract: hostile date-times (C04 date generator x times {00:00, 23:59:59.999999999, within 1 s of midnight, whole seconds, all-distinct, random}) x sign-uniform durations "
+                 "mixing date units with time parts that carry 0, +-1 or many days (incl. landing exactly on/around midnight) x both overflow modes vs the AddDateTime model (exact "
+                 "ns-of-day carry + AddISODate + date-time limit); until/since: pairs incl. the borrow branch (time-of-day order opposite to date order), ~1 month, ~1 year, random, "
+                 "x all ten largest units vs the DifferenceISODateTime model and the laws (inverse when all fields < 2^53, since=-until, sign-uniform, |time part| < 24 h); round: every "
+                 "unit x admissible increment x 9 modes x position-in-step incl. the last step of the day and the first/last representable days vs the exact rounding oracle. "
+                 "non-trivial = time carry crosses a day (add), borrow branch (diff), value not a multiple (round); distinct by case fingerprint"),
+        "assumptions": ["refmodel::date + exact ns-of-day arithmetic; duration fields above 2^53 are the nearest double of the exact value, so the inverse law is not judged for them (counted)"],
+        "manifest": {
+            "technique": "runtime monitoring: exact carry/borrow reference model and laws over observed PlainDateTime add/subtract/until/since/round calls, two builds",
+            "text": "Every observed PlainDateTime add/subtract result is compared with an exact model (nanosecond-of-day carry, then the C04 date model, then the date-time limits, RangeError otherwise); until/since with the transcribed DifferenceISODateTime for all ten largest units plus the property's laws on the implementation's own output; round with exact RoundNumberToIncrement from midnight including day carry and the range limit. Generated workloads concentrate on midnight carries, the borrow branch and the two range limits.",
+            "note": "Trusted: refmodel::date/civil/round/dur. Panics and internal-assertion errors are counted inconclusive here and judged by C03.",
+        },
+    },
     "C06": {
         "builds": ["chk", "rel"],
         "rule": ("seeded valid time-only durations with hostile magnitudes (single huge fields up to 9.007e24 ns, fields beyond 2^63 ns, mixed fields, both signs; "
